@@ -14,6 +14,7 @@ import DaskModel.Model.DelayedUnpack
 import DaskModel.Model.DelayedOps
 import DaskModel.Generated.FusedKeyRenamer
 import DaskModel.Model.CtorNamesIO
+import DaskModel.Model.SeqAnnotIO
 open Dask
 open Dask.NF
 open Dask.TaskNode
@@ -646,6 +647,6 @@ def hCallName : Handler := handler fun args =>
 def table : List (String × Handler) :=
   [("opsrun", hOpsRun), ("opkey", hOpKey), ("callname", hCallName), ("pickleloop", hPickleLoop), ("ptokpre", hPTokPre), ("xtokpre", hXTokPre), ("scls", hSCls), ("dunpack", hDUnpack), ("dcall", hDCall), ("fusedparts", hFusedParts), ("tokprerec", hTokPreRec), ("getscheduler", hGetScheduler), ("delayedrun", hDelayedRun), ("mergeeval", hMergeEval), ("unpack", hUnpack), ("unpacktop", hUnpackTop), ("tune", hTune),
    ("nodepre", hNodePre), ("nodeclass", hNodeClass), ("nodeeval", hNodeEval),
-   ("tokpre", hTokPre), ("tokprekw", hTokPreKw), ("pyrepr", hPyRepr), ("pystr", hPyStr), ("logical", hLogical)] ++ Dask.CtorNamesIO.handlers
+   ("tokpre", hTokPre), ("tokprekw", hTokPreKw), ("pyrepr", hPyRepr), ("pystr", hPyStr), ("logical", hLogical)] ++ Dask.CtorNamesIO.handlers ++ Dask.SeqAnnotIO.handlers
 
 def main : IO Unit := runDriver table
